@@ -11,7 +11,7 @@ FUNCS = ['taurex.binning.binner:Binner.generate_spectrum_output', 'taurex.binnin
 @harness('C16', 'spectrum_output',
          quick=[dict(binner='flux', nn=3, nb=1, size=s) for s in ('lighter', 'light', 'heavy')] + [dict(binner='native', nn=3, nb=0, size='heavy'),
                                                                                                      dict(binner='simple', nn=3, nb=2, size='light')],
-         thorough=[dict(binner='flux', nn=4, nb=2, size=s, _shards=8) for s in ('lighter', 'heavy')] + [dict(binner='simple', nn=4, nb=2, size='heavy', _shards=4)],
+         thorough=[dict(binner='flux', nn=3, nb=2, size=s, _shards=8) for s in ('lighter', 'heavy')] + [dict(binner='flux', nn=4, nb=1, size='heavy', _shards=8), dict(binner='simple', nn=4, nb=2, size='heavy', _shards=4)],
          functions=FUNCS, shard_depth=4, stubs=['np.histogram/np.digitize contract models (SimpleBinner)'],
          outside=['HDF5 write/read round trip and model reload (byte-level I/O: not reachable by a solver)'])
 def spectrum_output(ctx, binner, nn, nb, size):
